@@ -97,13 +97,15 @@ Module MC.
     G 1 [Fd "McGroupID" 2 id; Fd "DRError" 1 (b2n d); Fd "FreqError" 1 (b2n f);
          Fd "McGroupUndefined" 1 (b2n u); Fd "RFU" 3 0]
     :: match tts with Some t => [U24 "TimeToStart" t] | None => [] end.
+  Definition item_groups (it : N * list N) : list group :=
+    [G 1 [Fd "McGroupID" 2 (fst it); Fd "RFU" 6 0]; ADDR "McAddr" (snd it)].
   Definition spec (p : payload) : list group :=
     match p with
     | PackageVersionAns i v => [U8 "PackageIdentifier" i; U8 "PackageVersion" v]
     | McGroupStatusReq m => [G 1 [Fd "ReqGroupMask" 4 (mask_val m); Fd "RFU" 4 0]]
     | McGroupStatusAns nb m items =>
       G 1 [Fd "AnsGroupMask" 4 (mask_val m); Fd "NbTotalGroups" 3 nb; Fd "RFU" 1 0]
-      :: flat_map (fun it => [G 1 [Fd "McGroupID" 2 (fst it); Fd "RFU" 6 0]; ADDR "McAddr" (snd it)]) items
+      :: flat_map item_groups items
     | McGroupSetupReq id addr key minf maxf =>
       [G 1 [Fd "McGroupID" 2 id; Fd "RFU" 6 0]; ADDR "McAddr" addr; Raw "McKey_encrypted" 16 key;
        U32 "minMcFCount" minf; U32 "maxMcFCount" maxf]
